@@ -176,11 +176,30 @@ def close_driver():
         _driver = None
 
 
+COST_SCALE = 4
+
+
+def lean_spec(spec):
+    """The model takes integer cost vectors. Dyadic-rational cost vectors (multiples of 1/4, exactly
+    representable as floats) are scaled by 4: every quantity the code computes from the costs scales
+    linearly and the period formula only depends on the ratio (wd + rd) / uf."""
+    w = spec.split()
+    if w[0] in ("RV", "DR", "PD", "HR") and any("." in t for t in w[-4:]):
+        scaled = []
+        for t in w[-4:]:
+            v = float(t) * COST_SCALE
+            if v != int(v):
+                raise ValueError("cost not a multiple of 1/4: " + spec)
+            scaled.append(str(int(v)))
+        return " ".join(w[:-4] + scaled)
+    return spec
+
+
 def model_traces(inputs):
     st = Store("model", model_hash())
     todo = [x for x in dict.fromkeys(inputs) if x not in st.d]
     if todo:
-        res = driver().ask_many([(f"gen {s} @ {n} {k}", None) for s, n, k in todo])
+        res = driver().ask_many([(f"gen {lean_spec(s)} @ {n} {k}", None) for s, n, k in todo])
         for x, r in zip(todo, res):
             st.d[x] = r
         st.dirty = True
@@ -199,7 +218,7 @@ def monitor(inputs, traces):
     todo = [x for x in dict.fromkeys(inputs)
             if x not in st.d and not traces[x][0].startswith(("X", "H"))]
     if todo:
-        res = driver().ask_many([(f"mon {x[0]} @ {x[1]} {x[2]}", traces[x]) for x in todo])
+        res = driver().ask_many([(f"mon {lean_spec(x[0])} @ {x[1]} {x[2]}", traces[x]) for x in todo])
         for x, r in zip(todo, res):
             vs = []
             for ln in r:
